@@ -13,7 +13,7 @@ def with_reloc(lines, rng, pool, p=0.3):
     return out
 
 def run(ctx):
-    ok = ctx.lean(['AmcVerif.Props.C14'])
+    ok = ctx.lean(['AmcVerif.Props.C14'], extra_modules=['AmcVerif.Bridge.TraitsBridge', 'AmcVerif.Bridge.SmallSetBridge'])
     n = 50 if ctx.tier == 'quick' else 400
     if not ok:
         n *= 3
